@@ -10,6 +10,7 @@ import (
 
 	"github.com/thanos-community/promql-engine/execution/model"
 
+	"github.com/efficientgo/core/errors"
 	"github.com/prometheus/prometheus/model/labels"
 )
 
@@ -76,6 +77,13 @@ func (c *concurrencyOperator) Next(ctx context.Context) ([]model.StepVector, err
 
 func (c *concurrencyOperator) pull(ctx context.Context) {
 	defer close(c.buffer)
+	// A panic on this goroutine would terminate the process: report it as the
+	// error of the query, like the engine does for panics on the Exec goroutine.
+	defer func() {
+		if e := recover(); e != nil {
+			c.buffer <- maybeStepVector{err: recoveredError(e)}
+		}
+	}()
 
 	for {
 		select {
@@ -94,6 +102,14 @@ func (c *concurrencyOperator) pull(ctx context.Context) {
 			c.buffer <- maybeStepVector{stepVector: r}
 		}
 	}
+}
+
+// recoveredError turns a recovered panic value into a query error.
+func recoveredError(e interface{}) error {
+	if err, ok := e.(error); ok {
+		return errors.Wrap(err, "unexpected error")
+	}
+	return errors.Newf("unexpected error: %v", e)
 }
 
 func (c *concurrencyOperator) drainBufferOnCancel(ctx context.Context) {
